@@ -140,7 +140,7 @@ def run_tour(ctx, rng, world):
     for i in range(rng.randint(2, 5)):
         bs = rng.choice([512, 520, 4096])
         nblocks = rng.choice([1 << 20, (1 << 21) + 5, (1 << 32) + 0x3039, 1 << 41])
-        tgt = Target(rng.choice([0, 0, 4, 7]), 0, bs, nblocks, product=b"UNIT %-11d" % i)
+        tgt = Target(rng.choice([0, 0, 4, 7] + ([0x0E, 0x14] if i == 0 else [])), 0, bs, nblocks, product=b"UNIT %-11d" % i)
         tgt.inquiry_length = rng.choice([36, 96, 96, 97, 200, 260])
         if rng.random() < 0.4:
             tgt.unsupported = {"ReadCapacity16", "GetLBAStatus"}
@@ -164,6 +164,12 @@ def run_tour(ctx, rng, world):
         for step, u in enumerate(order):
             tgt, transport, dev, shadow = units[u]
             world["sg"].handler = world["is"].handler = dispatch
+            if s is None and tgt.devtype in (0x0E, 0x14):
+                # a block device type the facade has no table for: the user assigns the block command set to the device himself
+                import pyscsi.pyscsi.scsi_enum_command as _E
+
+                dev.opcodes = _E.sbc
+                ctx.count("tour_units_of_unmapped_block_type")
             visits.append((u, transport, hex(tgt.nblocks), sorted(tgt.unsupported)))
             wit = {"visits": visits[-6:], "unit": u, "transport": transport, "bs": tgt.bs, "nblocks": tgt.nblocks, "unsupported": sorted(tgt.unsupported)}
             try:
@@ -190,6 +196,12 @@ def run_tour(ctx, rng, world):
                 if r.get("returned_lba") != want_lba or r.get("block_length") != tgt.bs:
                     ctx.fail("C12:tour.readcapacity%d_result" % w, "READ CAPACITY(%d) on unit %d reports %r, the unit has last lba %#x bs %d (earlier visits: %r)"
                              % (w, u, {k: r.get(k) for k in ("returned_lba", "block_length")}, want_lba, tgt.bs, visits[-4:-1]), wit)
+                # the result is the caller's: he turns the last LBA into a block count, clamps it to a quota, empties the dictionary
+                if isinstance(r.get("returned_lba"), int):
+                    r["returned_lba"] = (r["returned_lba"] + 1) if step % 3 else min(r["returned_lba"], 1000)
+                    r["block_length"] = 1
+                    if step % 2:
+                        r.clear()
             try:
                 r = s.inquiry().result
                 if bytes(r.get("product_identification", b"")) != tgt.product or r.get("peripheral_device_type") != tgt.devtype:
